@@ -18,7 +18,7 @@ const fn b(world: &'static str, shape: &'static str, quick: u64, thorough: u64) 
 pub fn batches(prop: &str) -> Vec<Batch> {
     match prop {
         "C01" => vec![b("A", "mixed", 2500, 120_000), b("A", "concurrent", 1000, 60_000), b("A", "restart", 500, 60_000), b("A", "crash", 300, 30_000), b("A", "poolchange", 1000, 60_000)],
-        "C02" => vec![b("A", "mixed", 1500, 60_000), b("A", "drain", 400, 20_000), b("A", "drain-large", 24, 400)],
+        "C02" => vec![b("A", "mixed", 1500, 60_000), b("A", "drain", 400, 20_000), b("A", "drain-large", 8, 400)],
         "C09" => vec![b("A", "mixed", 3000, 200_000), b("A", "roam", 1000, 60_000), b("A", "poolchange", 2000, 100_000)],
         "C10" => vec![b("A", "mixed", 2500, 150_000), b("A", "rhythm", 800, 60_000)],
         "C12" => vec![b("A", "wire", 2500, 150_000), b("A", "mixed", 800, 50_000)],
@@ -98,7 +98,7 @@ pub fn run_check(prop: &str, tier: &str, base_seed: u64, verif_dir: &str) -> i32
         return 2;
     }
     /* thorough batches are sized for 10-20 minutes on 16 workers */
-    let scale: f64 = std::env::var("ESIM_SCALE").ok().and_then(|s| s.parse().ok()).unwrap_or(1.0) * if thorough { 6.0 } else { 1.0 };
+    let scale: f64 = std::env::var("ESIM_SCALE").ok().and_then(|s| s.parse().ok()).unwrap_or(1.0) * if thorough { 6.0 } else { 3.0 };
     let findings = load_findings(&format!("{}/known_findings.json", verif_dir));
     /* the job list is described, not materialised: thorough tiers run millions of plans */
     #[derive(Clone)]
@@ -180,24 +180,33 @@ pub fn run_check(prop: &str, tier: &str, base_seed: u64, verif_dir: &str) -> i32
     }
     let mut sum = BatchSummary::new();
     let mut first_job: BTreeMap<String, Job> = BTreeMap::new();
-    let mut done = 0usize;
-    for chunk in descs.chunks(8192) {
-        let jobs: Vec<Job> = chunk.iter().map(&materialise).collect();
-        let outs = run_jobs(&jobs, w, false, |_, _| {});
-        for (i, o) in outs.iter().enumerate() {
-            sum.add(done + i, &jobs[i], o);
-            for v in outcome_violations(&jobs[i], o) {
-                first_job.entry(v.kind.clone()).or_insert_with(|| jobs[i].clone());
+    let mut sample_idx: Vec<usize> = vec![];
+    {
+        let sum_ref = &mut sum;
+        let first_ref = &mut first_job;
+        let samples_ref = &mut sample_idx;
+        let make = |i: usize| materialise(&descs[i]);
+        let seed_of = |i: usize| match &descs[i] {
+            Desc::Gen { shape, i, .. } => job_seed(base_seed, prop, shape, *i),
+            Desc::Crash { base, .. } => bases[*base].seed(),
+        };
+        crate::supervisor::run_lazy(descs.len(), &make, w, false, |i, o| {
+            sum_ref.add(i, seed_of(i), &o);
+            for v in crate::supervisor::outcome_violations_seed(seed_of(i), &o) {
+                first_ref.entry(v.kind.clone()).or_insert_with(|| make(i));
             }
-            if sum.samples.len() < 3 {
-                if let Outcome::Done(r) = o {
+            if samples_ref.len() < 3 {
+                if let Outcome::Done(r) = &o {
                     if r.nontrivial {
-                        sum.samples.push(sample_of(&jobs[i]));
+                        samples_ref.push(i);
                     }
                 }
             }
-        }
-        done += jobs.len();
+        });
+    }
+    sample_idx.sort();
+    for i in sample_idx {
+        sum.samples.push(sample_of(&materialise(&descs[i])));
     }
     if sum.samples.is_empty() {
         sum.samples.push(sample_of(&materialise(&descs[0])));
